@@ -119,6 +119,61 @@ End Trk.
 Lemma ntrk_init Dt Da st z : chan_to st z = [] -> ntrk (fa_init Dt Da st) z.
 Proof. intros E j t. cbn [fa_init fa_dl]. rewrite E. cbn. destruct j; discriminate. Qed.
 
+(* the bookkeeping after a run *)
+Fixpoint fa_run (Dt Da : Z) (fa : fair_aux) (st : net) (evs : list net_event) : fair_aux :=
+  match evs with
+  | [] => fa
+  | ev :: rest => match net_step st ev with
+                  | Ok st' => fa_run Dt Da (fa_after Dt Da fa ev st') st' rest
+                  | _ => fa
+                  end
+  end.
+
+Lemma fa_run_app Dt Da a : forall b fa st st1,
+  net_run st a = Ok st1 -> fa_run Dt Da fa st (a ++ b) = fa_run Dt Da (fa_run Dt Da fa st a) st1 b.
+Proof.
+  induction a as [|ev r IH]; intros b fa st st1 H; cbn [net_run] in H.
+  - inversion H; subst. reflexivity.
+  - apply obind_ok in H. destruct H as (st0 & Hs & Hr). cbn [app fa_run]. rewrite Hs. exact (IH b _ _ _ Hr).
+Qed.
+
+Lemma fair_run_app Dt Da a : forall b fa st st1,
+  net_run st a = Ok st1 -> fair_run Dt Da fa st (a ++ b) ->
+  fair_run Dt Da fa st a /\ fair_run Dt Da (fa_run Dt Da fa st a) st1 b.
+Proof.
+  induction a as [|ev r IH]; intros b fa st st1 H Hf; cbn [net_run] in H.
+  - inversion H; subst. split; [exact I | exact Hf].
+  - apply obind_ok in H. destruct H as (st0 & Hs & Hr). cbn [app fair_run fa_run] in *. rewrite Hs in *.
+    destruct Hf as (Hev & Hf). destruct (IH b _ _ _ Hr Hf) as (A & B). auto.
+Qed.
+
+Lemma once_run_app Dt Da a : forall b fa st st1,
+  net_run st a = Ok st1 -> once_run Dt Da fa st (a ++ b) ->
+  once_run Dt Da fa st a /\ once_run Dt Da (fa_run Dt Da fa st a) st1 b.
+Proof.
+  induction a as [|ev r IH]; intros b fa st st1 H Hf; cbn [net_run] in H.
+  - inversion H; subst. split; [exact I | exact Hf].
+  - apply obind_ok in H. destruct H as (st0 & Hs & Hr). cbn [app once_run fa_run] in *. rewrite Hs in *.
+    destruct Hf as (Hev & Hf). destruct (IH b _ _ _ Hr Hf) as (A & B). auto.
+Qed.
+
+(* an invariant of reliable runs *)
+Lemma rel_inv (Dt Da : Z) (E : net_event -> Prop) (K : fair_aux -> net -> Prop) :
+  (forall fa st ev st', E ev -> K fa st -> fair_ev fa st ev -> once_ev fa ev -> net_step st ev = Ok st' ->
+     K (fa_after Dt Da fa ev st') st') ->
+  forall evs fa st st',
+    K fa st -> Forall E evs -> fair_run Dt Da fa st evs -> once_run Dt Da fa st evs ->
+    net_run st evs = Ok st' -> K (fa_run Dt Da fa st evs) st'.
+Proof.
+  intros Hstep. induction evs as [|ev r IH]; intros fa st st' HK HE Hfair Honce Hrun.
+  - cbn [net_run] in Hrun. inversion Hrun; subst. exact HK.
+  - cbn [net_run] in Hrun. apply obind_ok in Hrun. destruct Hrun as (st1 & Hs & Hr).
+    cbn [fair_run] in Hfair. destruct Hfair as (Hev & Hrest). rewrite Hs in Hrest.
+    cbn [once_run] in Honce. destruct Honce as (Hoe & Horest). rewrite Hs in Horest.
+    inversion HE as [|? ? HE0 HE1]; subst. cbn [fa_run]. rewrite Hs.
+    apply (IH _ _ _ (Hstep _ _ _ _ HE0 HK Hev Hoe Hs) HE1 Hrest Horest Hr).
+Qed.
+
 (* the induction principle for reliable runs, with a predicate on the events *)
 Theorem rel_leads_ev (Dt Da : Z) (E : net_event -> Prop) (J Q : fair_aux -> net -> Prop) (x : side) (T : Z) :
   (forall fa st, J fa st -> net_now st x <= T) ->
@@ -127,9 +182,10 @@ Theorem rel_leads_ev (Dt Da : Z) (E : net_event -> Prop) (J Q : fair_aux -> net 
   forall evs fa st st',
     J fa st -> Forall E evs -> fair_run Dt Da fa st evs -> once_run Dt Da fa st evs ->
     net_run st evs = Ok st' -> T < net_now st' x ->
-    exists pre post fa1 st1,
+    exists pre post st1,
       evs = pre ++ post /\ net_run st pre = Ok st1 /\ net_run st1 post = Ok st' /\
-      Forall E post /\ fair_run Dt Da fa1 st1 post /\ once_run Dt Da fa1 st1 post /\ Q fa1 st1.
+      Forall E post /\ fair_run Dt Da (fa_run Dt Da fa st pre) st1 post /\
+      once_run Dt Da (fa_run Dt Da fa st pre) st1 post /\ Q (fa_run Dt Da fa st pre) st1.
 Proof.
   intros Hclock Hstep. induction evs as [|ev r IH]; intros fa st st' HJ HE Hfair Honce Hrun Hpast.
   - cbn [net_run] in Hrun. inversion Hrun; subst. specialize (Hclock _ _ HJ). lia.
@@ -138,12 +194,12 @@ Proof.
     cbn [once_run] in Honce. destruct Honce as (Hoe & Horest). rewrite Hs in Horest.
     inversion HE as [|? ? HE0 HE1]; subst.
     destruct (Hstep _ _ _ _ HE0 HJ Hev Hoe Hs) as [HQ | HJ'].
-    + exists [ev], r, (fa_after Dt Da fa ev st1), st1.
+    + exists [ev], r, st1. cbn [fa_run]. rewrite Hs.
       split; [reflexivity|]. split; [cbn [net_run]; rewrite Hs; reflexivity|].
       split; [exact Hr|]. split; [exact HE1|]. split; [exact Hrest|]. split; [exact Horest | exact HQ].
     + destruct (IH _ _ _ HJ' HE1 Hrest Horest Hr Hpast)
-        as (pre & post & fa1 & st2 & -> & Hp1 & Hp2 & HE2 & Hf & Ho & HQ).
-      exists (ev :: pre), post, fa1, st2.
+        as (pre & post & st2 & -> & Hp1 & Hp2 & HE2 & Hf & Ho & HQ).
+      exists (ev :: pre), post, st2. cbn [fa_run]. rewrite Hs.
       split; [reflexivity|]. split; [cbn [net_run]; rewrite Hs; exact Hp1|].
       split; [exact Hp2|]. split; [exact HE2|]. split; [exact Hf|]. split; [exact Ho | exact HQ].
 Qed.
